@@ -22,8 +22,9 @@ def to_tiny(y):
     return -127 if y == MIN_YEAR else (126 if y == MAX_YEAR else y - 2000)
 
 
-def synth(scope):
-    """Synthetic raw eras/rules covering the full product of admissible values per encoded field."""
+def synth(scope, rng=None, n_random=0):
+    """Synthetic raw eras/rules covering the full product of admissible values per encoded field
+    (each field's whole value set, combined cyclically), plus n_random entries whose fields are drawn independently."""
     years = list(range(1874, 2126)) + [MIN_YEAR, MAX_YEAR]
     deltas = [m * 60 for m in range(-60, 166, 15)]                       # -1:00 .. +2:45
     offsets = [m * 60 for m in (range(-720, 841) if scope == 'extended' else range(-720, 841, 15))]
@@ -43,6 +44,15 @@ def synth(scope):
                 'letter': letter, 'rawLine': 'Rule synthetic %d' % k,
             })
             k += 1
+    for i in range(n_random):
+        t = rng.randrange(0, 1501)
+        dow, dom = rng.choice(ons)
+        rules_flat.append({
+            'fromYear': rng.choice(years), 'toYear': rng.choice(years), 'inMonth': rng.randrange(1, 13), 'onDay': 'x', 'onDayOfWeek': dow,
+            'onDayOfMonth': dom, 'atTime': 'x', 'atTimeSuffix': rng.choice(SUFFIXES), 'atSeconds': t * 60, 'atSecondsTruncated': t * 60,
+            'deltaOffset': 'x', 'deltaSeconds': 0, 'deltaSecondsTruncated': rng.choice(deltas),
+            'letter': rng.choice(SINGLE + MULTI) if scope == 'extended' else rng.choice(SINGLE), 'rawLine': 'Rule random %d' % i})
+        rules_flat[-1]['deltaSeconds'] = rules_flat[-1]['deltaSecondsTruncated']
     # every (year, year) combination is too many; make sure each year appears as FROM and as TO, each ON pair, each delta
     rules_map = {}
     for i in range(0, len(rules_flat), 180):
@@ -71,14 +81,29 @@ def synth(scope):
             'untilTimeSuffix': suf, 'untilSeconds': t * 60, 'untilSecondsTruncated': t * 60, 'offsetSeconds': off,
             'offsetSecondsTruncated': off, 'rulesDeltaSeconds': rd, 'rulesDeltaSecondsTruncated': rd, 'rawLine': 'era synthetic %d' % k,
         })
+    for i in range(n_random):
+        t = rng.randrange(0, 1501)
+        mode = rng.randrange(3)
+        if mode == 1 and scope == 'extended':
+            rules, rd = ':', rng.choice([d for d in deltas if d])
+        elif mode == 2:
+            rules, rd = rng.choice(pol_names), 0
+        else:
+            rules, rd = '-', 0
+        off = rng.choice(offsets)
+        eras_flat.append({
+            'offsetString': 'x', 'rules': rules, 'format': rng.choice(FORMATS), 'untilYear': rng.choice(until_years), 'untilYearOnly': False,
+            'untilMonth': rng.randrange(1, 13), 'untilDayString': 'x', 'untilDay': rng.randrange(1, 32), 'untilTime': 'x',
+            'untilTimeSuffix': rng.choice(SUFFIXES), 'untilSeconds': t * 60, 'untilSecondsTruncated': t * 60, 'offsetSeconds': off,
+            'offsetSecondsTruncated': off, 'rulesDeltaSeconds': rd, 'rulesDeltaSecondsTruncated': rd, 'rawLine': 'era random %d' % i})
     zones_map = {}
     for i in range(0, len(eras_flat), 150):
         zones_map['Syn/Z%03d' % (i // 150)] = eras_flat[i:i + 150]
     return zones_map, rules_map
 
 
-def synth_tzdb(scope):
-    zones_map, rules_map = synth(scope)
+def synth_tzdb(scope, rng=None, n_random=0):
+    zones_map, rules_map = synth(scope, rng, n_random)
     tr = importlib.import_module("tzdb.transformer")
     return {
         'tz_version': 'synthetic', 'tz_files': [], 'scope': scope, 'start_year': 2000, 'until_year': 2050,
@@ -178,7 +203,8 @@ def run(tier):
     gens = {}
     tzdbs = {}
     for scope, ns in (("extended", "gendbx"), ("basic", "gendb")):
-        tzdb = synth_tzdb(scope)
+        import random
+        tzdb = synth_tzdb(scope, random.Random(vlib.seed() * 7 + len(scope)), 0 if tier == "quick" else 6000)
         tzdbs[scope] = tzdb
 
         class C:
